@@ -413,3 +413,8 @@ def _jdefault(o):
 
 def txt(b):
     return b.decode("utf-8", "replace") if isinstance(b, (bytes, bytearray)) else b
+
+
+def shquote(s):
+    """Single-quote a string for a shell script (newlines and control characters stay literal inside the quotes)."""
+    return "'" + s.replace("'", "'\\''") + "'"
